@@ -275,56 +275,71 @@ structure DrainOut where
   back : List Char
   deriving Repr, DecidableEq
 
-/-- `String::drain(range)`, then `take` calls of `next`, `back` calls of `next_back`, then
-drop (or `mem::forget`) of the `Drain`: `Drop` removes `start..end` through `Vec::drain`. -/
+/-- `String::drain` once `start`/`end` are known: the slice `self[start..end]` (panics unless
+both ends are char boundaries and `start <= end`), `take` calls of `next`, `back` calls of
+`next_back`, then the `Drain` is dropped (or leaked with `mem::forget`): `Drop` removes
+`start..end` through `Vec::drain`. -/
+def drainCore (s : Bytes) (start end_ take back : Nat) (forget : Bool) : Outcome DrainOut :=
+  if !(sliceOk s start end_) then .panic
+  else
+    match decodeAll ((s.drop start).take (end_ - start)) with
+    | none => .bad "drain: text is not UTF-8"
+    | some cs =>
+      let front := cs.take take
+      let rest := cs.drop take
+      let backs := (rest.reverse).take back
+      let bytes :=
+        if forget then s
+        else if start ≤ end_ ∧ end_ ≤ s.length then s.take start ++ s.drop end_ else s
+      .ok ⟨bytes, front, backs⟩
+
+/-- `String::drain(range)` -/
 def drain (ovf : Bool) (s : Bytes) (sb eb : Bd) (take back : Nat) (forget : Bool) : Outcome DrainOut :=
   match rangeStart (drainOvf ovf) sb with
   | .ok start =>
     match rangeEnd (drainOvf ovf) s.length eb with
-    | .ok end_ =>
-      if !(sliceOk s start end_) then .panic
-      else
-        match decodeAll ((s.drop start).take (end_ - start)) with
-        | none => .bad "drain: text is not UTF-8"
-        | some cs =>
-          let front := cs.take take
-          let rest := cs.drop take
-          let backs := (rest.reverse).take back
-          let bytes :=
-            if forget then s
-            else if start ≤ end_ ∧ end_ ≤ s.length then s.take start ++ s.drop end_ else s
-          .ok ⟨bytes, front, backs⟩
+    | .ok end_ => drainCore s start end_ take back forget
     | .panic => .panic
     | _ => .bad "drain"
   | .panic => .panic
   | _ => .bad "drain"
 
-/-- `String::replace_range`: the two boundary assertions, then `Vec::splice(range, bytes)`
-(`Vec::drain` recomputes `start`/`end` with the same `n + 1`, asserts `start <= end`,
-`end <= len`; `Splice`'s drop leaves `head ++ replacement ++ tail`). -/
+/-- first `match` of `replace_range`: `assert!(self.is_char_boundary(start))` -/
+def startAssert (ovf : Bool) (s : Bytes) : Bd → Outcome Unit
+  | .incl n => if isCharBoundary s n then .ok () else .panic
+  | .excl n =>
+    match addOne ovf n with
+    | .ok m => if isCharBoundary s m then .ok () else .panic
+    | _ => .panic
+  | .unbounded => .ok ()
+
+/-- second `match` of `replace_range`: `assert!(self.is_char_boundary(end))` -/
+def endAssert (ovf : Bool) (s : Bytes) : Bd → Outcome Unit
+  | .incl n =>
+    match addOne ovf n with
+    | .ok m => if isCharBoundary s m then .ok () else .panic
+    | _ => .panic
+  | .excl n => if isCharBoundary s n then .ok () else .panic
+  | .unbounded => .ok ()
+
+/-- `Vec::<u8>::splice(range, bytes)`: `Vec::drain` recomputes `start`/`end` with its own
+`n + 1`, asserts `start <= end` and `end <= len`; dropping the `Splice` leaves
+`head ++ replacement ++ tail` (result level; the element-wise `Splice` is family `vec`). -/
+def spliceBytes (ovf : Bool) (s : Bytes) (sb eb : Bd) (t : Bytes) : Outcome Bytes :=
+  match rangeStart ovf sb with
+  | .ok start =>
+    match rangeEnd ovf s.length eb with
+    | .ok end_ =>
+      if start ≤ end_ ∧ end_ ≤ s.length then .ok (s.take start ++ t ++ s.drop end_) else .panic
+    | _ => .panic
+  | _ => .panic
+
+/-- `String::replace_range`: the two boundary assertions, then `Vec::splice(range, bytes)` -/
 def replaceRange (ovf : Bool) (s : Bytes) (sb eb : Bd) (t : Bytes) : Outcome Bytes :=
-  let a1 : Outcome Unit :=
-    match sb with
-    | .incl n => if isCharBoundary s n then .ok () else .panic
-    | .excl n => match addOne (replaceOvf ovf) n with
-      | .ok m => if isCharBoundary s m then .ok () else .panic
-      | _ => .panic
-    | .unbounded => .ok ()
-  match a1 with
+  match startAssert (replaceOvf ovf) s sb with
   | .ok () =>
-    let a2 : Outcome Unit :=
-      match eb with
-      | .incl n => match addOne (replaceOvf ovf) n with
-        | .ok m => if isCharBoundary s m then .ok () else .panic
-        | _ => .panic
-      | .excl n => if isCharBoundary s n then .ok () else .panic
-      | .unbounded => .ok ()
-    match a2 with
-    | .ok () =>
-      match rangeStart (vecDrainOvf ovf) sb, rangeEnd (vecDrainOvf ovf) s.length eb with
-      | .ok start, .ok end_ =>
-        if start ≤ end_ ∧ end_ ≤ s.length then .ok (s.take start ++ t ++ s.drop end_) else .panic
-      | _, _ => .panic
+    match endAssert (replaceOvf ovf) s eb with
+    | .ok () => spliceBytes (vecDrainOvf ovf) s sb eb t
     | _ => .panic
   | _ => .panic
 
